@@ -21,9 +21,13 @@ type H2Session struct {
 
 // NewH2Session sends the preface with SETTINGS that give the server unlimited room to send
 // (so that responses never stall), and processes the server's first frames.
-func NewH2Session(c *Client) *H2Session {
+func NewH2Session(c *Client) *H2Session { return NewH2SessionWith(c) }
+
+// NewH2SessionWith additionally advertises the given settings (e.g. SETTINGS_HEADER_TABLE_SIZE = 0; the caller then
+// must give the client a decoder of that size: c.Dec = h2wire.NewDecoderSize(0)).
+func NewH2SessionWith(c *Client, extra ...h2wire.Setting) *H2Session {
 	s := &H2Session{C: c, Col: NewH2Collector(), connWin: 65535, initWin: 65535, strWin: map[uint32]int64{}, maxFrame: 16384}
-	c.StartH2(h2wire.Setting{ID: 4, Val: 1<<31 - 1})
+	c.StartH2(append([]h2wire.Setting{{ID: 4, Val: 1<<31 - 1}}, extra...)...)
 	c.Write(h2wire.WindowUpdate(0, 1<<31-1-65535))
 	synctest.Wait()
 	s.Pump()
